@@ -222,9 +222,15 @@ func vfPbFieldOf(diff string) string {
 	return f
 }
 
-func TestVerifC20Client(t *testing.T) {
+func TestVerifC20Client(t *testing.T) { vfPbClient("C20", "pb-client") }
+
+// The same message shapes judged for C13: decoding a client message received over gRPC must not panic
+// (the gRPC read loop has no recover: a panic there ends the server).
+func TestVerifC13PbClient(t *testing.T) { vfPbClient("C13", "pb-client") }
+
+func vfPbClient(prop, part string) {
 	vfProcessInit()
-	r := vfev.New("C20", "pb-client")
+	r := vfev.New(prop, part)
 	defer r.Finish()
 	defer r.RecoverPanic()
 	pairs := vfev.Thorough()
@@ -248,6 +254,9 @@ func TestVerifC20Client(t *testing.T) {
 			a, b, err := vfCliRoundTrip(raw)
 			if err != nil {
 				r.Violation("C20:client:"+kind+":roundtrip-error", fmt.Sprintf("%s %s: %v", kind, name, err), string(raw))
+				if strings.Contains(err.Error(), "panic") {
+					r.Violation("C13:panic:grpc-decode:"+kind, fmt.Sprintf("decoding the gRPC form of {%s} (variant %s) panics: %v", kind, name, err), string(raw))
+				}
 				return
 			}
 			var diffs []string
